@@ -236,6 +236,13 @@ func produceGuards(repo string) ([]byte, []string) {
 		}
 		b.WriteString(def + "\n\n")
 	}
+	// the decision structure of checkTransactionSignatures: where it returns nil / an error
+	if shape, err := ctsReturnShape(repo); err != nil {
+		errs = append(errs, "cts_return_shape: "+err.Error())
+		fmt.Fprintf(&b, "Definition translator_broken_cts_return_shape : unit := tt. (* %s *)\n\n", strings.ReplaceAll(err.Error(), "*)", "* )"))
+	} else {
+		b.WriteString(shape)
+	}
 	// the recovering wrapper of the crypto library's Verify (repair c4422b91)
 	if err := checkVerifyWrapper(repo); err != nil {
 		errs = append(errs, "verify_wrapper: "+err.Error())
@@ -245,6 +252,134 @@ func produceGuards(repo string) ([]byte, []string) {
 		b.WriteString("Definition verify_wrapper_recovers : bool := true.\n")
 	}
 	return []byte(b.String()), errs
+}
+
+// ctsReturnShape inventories the return statements of checkTransactionSignatures relative to its
+// one loop over tx.Sigs: the guards of every `return nil` before the loop (the model has exactly
+// one early accept: IsEipTx), the number of `return nil` inside and after the loop (0 and the
+// final unconditional one) and the number of error returns before / inside / after the loop (the
+// model's error sites: too many sets; GetSig, parameter length, single verification, multi
+// verification, address; payer).  Proofs/Sig.v states the expected inventory, so an added early
+// accept or a removed rejection breaks a proof obligation.
+func ctsReturnShape(repo string) (string, error) {
+	path := filepath.Join(repo, "core/validation/transaction_validator.go")
+	fset := token.NewFileSet()
+	f, err := parser.ParseFile(fset, path, nil, 0)
+	if err != nil {
+		return "", err
+	}
+	src, err := os.ReadFile(path)
+	if err != nil {
+		return "", err
+	}
+	var fd *ast.FuncDecl
+	for _, d := range f.Decls {
+		if x, ok := d.(*ast.FuncDecl); ok && x.Name.Name == "checkTransactionSignatures" && x.Recv == nil {
+			fd = x
+		}
+	}
+	if fd == nil {
+		return "", fmt.Errorf("checkTransactionSignatures not found")
+	}
+	loopIdx := -1
+	for i, st := range fd.Body.List {
+		if rs, ok := st.(*ast.RangeStmt); ok && strings.Contains(exprText(fset, src, rs.X), "tx.Sigs") {
+			if loopIdx >= 0 {
+				return "", fmt.Errorf("more than one top-level loop over tx.Sigs")
+			}
+			loopIdx = i
+		} else if _, ok := st.(*ast.ForStmt); ok {
+			return "", fmt.Errorf("unexpected top-level for statement")
+		}
+	}
+	if loopIdx < 0 {
+		return "", fmt.Errorf("no top-level `for ... range tx.Sigs`")
+	}
+	// returns of one statement, with the condition of the innermost enclosing if
+	type ret struct {
+		isNil bool
+		guard string
+	}
+	var collect func(n ast.Node, guard string, out *[]ret) error
+	collect = func(n ast.Node, guard string, out *[]ret) error {
+		switch t := n.(type) {
+		case nil:
+			return nil
+		case *ast.ReturnStmt:
+			if len(t.Results) != 1 {
+				return fmt.Errorf("return with %d results", len(t.Results))
+			}
+			*out = append(*out, ret{exprText(fset, src, t.Results[0]) == "nil", guard})
+		case *ast.BlockStmt:
+			for _, st := range t.List {
+				if err := collect(st, guard, out); err != nil {
+					return err
+				}
+			}
+		case *ast.IfStmt:
+			g := exprText(fset, src, t.Cond)
+			if err := collect(t.Body, g, out); err != nil {
+				return err
+			}
+			if t.Else != nil {
+				if err := collect(t.Else, "else of "+g, out); err != nil {
+					return err
+				}
+			}
+		case *ast.RangeStmt:
+			return collect(t.Body, guard, out)
+		case *ast.ForStmt:
+			return collect(t.Body, guard, out)
+		case *ast.SwitchStmt, *ast.TypeSwitchStmt, *ast.SelectStmt, *ast.LabeledStmt, *ast.GoStmt, *ast.DeferStmt:
+			return fmt.Errorf("unsupported statement kind %T", n)
+		}
+		return nil
+	}
+	var before, in, after []ret
+	for i, st := range fd.Body.List {
+		dst := &before
+		if i == loopIdx {
+			dst = &in
+		} else if i > loopIdx {
+			dst = &after
+		}
+		if err := collect(st, "", dst); err != nil {
+			return "", err
+		}
+	}
+	last, ok := fd.Body.List[len(fd.Body.List)-1].(*ast.ReturnStmt)
+	finalNil := ok && len(last.Results) == 1 && exprText(fset, src, last.Results[0]) == "nil"
+	count := func(rs []ret, isNil bool) int {
+		n := 0
+		for _, r := range rs {
+			if r.isNil == isNil {
+				n++
+			}
+		}
+		return n
+	}
+	var guards []string
+	for _, r := range before {
+		if r.isNil {
+			guards = append(guards, fmt.Sprintf("%q%%string", r.guard))
+		}
+	}
+	var b strings.Builder
+	b.WriteString("(* checkTransactionSignatures: inventory of its return statements relative to `for _, sigdata := range tx.Sigs` *)\n")
+	b.WriteString("Require Import Coq.Strings.String Coq.Lists.List.\n")
+	fmt.Fprintf(&b, "Definition cts_accept_guards_before_loop : list string := (%s)%%list.\n", func() string {
+		if len(guards) == 0 {
+			return "nil"
+		}
+		return strings.Join(guards, " :: ") + " :: nil"
+	}())
+	fmt.Fprintf(&b, "Definition cts_accepts_in_loop : nat := %d%%nat.\n", count(in, true))
+	fmt.Fprintf(&b, "Definition cts_accepts_after_loop : nat := %d%%nat.\n", count(after, true))
+	fmt.Fprintf(&b, "Definition cts_final_return_is_unconditional_nil : bool := %v.\n", finalNil)
+	fmt.Fprintf(&b, "Definition cts_rejects_before_loop : nat := %d%%nat.\n", count(before, false))
+	fmt.Fprintf(&b, "Definition cts_rejects_in_loop : nat := %d%%nat.\n", count(in, false))
+	fmt.Fprintf(&b, "Definition cts_rejects_after_loop : nat := %d%%nat.\n\n", count(after, false))
+	return b.String(), nil
 }
 
 func isCall(n ast.Node, pkg, name string) bool {
